@@ -117,6 +117,8 @@ def main():
         shutil.copy(os.path.join(src, "patch.diff"), dst)
         for f in demo_files:
             shutil.copy(os.path.join(src, f), dst)
+        rc_, base = sh("git -C /repo log -1 --format=%h")
+        log["repo_head_when_confirmed"] = base.strip()
         meta.update(res)
         meta["breaks_property"] = pid
         json.dump(meta, open(os.path.join(dst, "meta.json"), "w"), indent=1)
